@@ -985,6 +985,15 @@ func (s *sys) contradictCheckpoint(rng *rand.Rand) []*node {
 	return cands[rng.Intn(len(cands))]
 }
 
+func containsNode(ns []*node, x *node) bool {
+	for _, n := range ns {
+		if n == x {
+			return true
+		}
+	}
+	return false
+}
+
 // filter hashes: any deterministic function of the block will do
 func filterHash(n *node) chainhash.Hash {
 	return chainhash.DoubleHashH(append([]byte("filter"), n.hash[:]...))
@@ -1207,7 +1216,7 @@ func runCase(t *tr.W, rng *rand.Rand, nev int, script string) {
 
 	for ev := 0; ev < nev; ev++ {
 		p := 1 + rng.Intn(npeers)
-		x := rng.Intn(106)
+		x := rng.Intn(109)
 		switch {
 		case x < 14: // extend the stored tip
 			tp := tip()
@@ -1295,7 +1304,7 @@ func runCase(t *tr.W, rng *rand.Rand, nev int, script string) {
 					bhs[i] = headerfs.BlockHeader{BlockHeader: n.hdr, Height: uint32(n.height)}
 				}
 				if err := s.bh.WriteHeaders(bhs...); err != nil {
-					panic(err)
+					continue
 				}
 				t.Hit("ev.import.blocks")
 			}
@@ -1305,7 +1314,7 @@ func runCase(t *tr.W, rng *rand.Rand, nev int, script string) {
 				nf = 1 + rng.Intn(newTip-s.ftip)
 				prev, _, err := s.fh.ChainTip()
 				if err != nil {
-					panic(err)
+					continue // the stores are already broken (an earlier oracle failure says so)
 				}
 				last := *prev
 				var fhs []headerfs.FilterHeader
@@ -1318,7 +1327,7 @@ func runCase(t *tr.W, rng *rand.Rand, nev int, script string) {
 				fhs[len(fhs)-1].HeaderHash = chain[s.ftip+nf].hash
 				fhs[len(fhs)-1].Height = uint32(s.ftip + nf)
 				if err := s.fh.WriteHeaders(fhs...); err != nil {
-					panic(err)
+					continue
 				}
 				t.Hit("ev.import.filters")
 			}
@@ -1339,7 +1348,75 @@ func runCase(t *tr.W, rng *rand.Rand, nev int, script string) {
 			if b := s.contradictCheckpoint(rng); b != nil && rng.Intn(2) == 0 {
 				headers(p, b, "contradict-checkpoint")
 			}
-		case x == 105: // a reorganisation in which one RollbackLastBlock FAILS (the case ends here)
+		case x >= 106 && x < 108: // a fork that is NOT heavier, padded with a valid header that does not connect
+			// to it, so that the work of the whole message exceeds the displaced work
+			sp := s.peerID(s.bm.Digest().SyncPeer)
+			if sp == 0 || len(s.stored) < 3 {
+				continue
+			}
+			tipH := int32(len(s.stored) - 1)
+			floor := int32(0)
+			for _, c := range w.params.Checkpoints {
+				if c.Height <= tipH {
+					floor = c.Height
+				}
+			}
+			var cands [][]*node
+			for _, tgt := range w.nodes {
+				if s.onStored(tgt) {
+					continue
+				}
+				fp := tgt
+				for fp != nil && !s.onStored(fp) {
+					fp = fp.parent
+				}
+				if fp == nil || fp.height < floor || fp.height >= tipH {
+					continue
+				}
+				b := pathTo(fp, tgt)
+				ok := true
+				nw, ow := new(big.Int), new(big.Int)
+				for _, n := range b {
+					ok = ok && n.valid
+					nw.Add(nw, n.work)
+					for _, c := range w.params.Checkpoints {
+						if c.Height == n.height {
+							ok = false
+						}
+					}
+				}
+				for _, n := range s.stored[fp.height+1:] {
+					ow.Add(ow, n.work)
+				}
+				if !ok || nw.Cmp(ow) > 0 {
+					continue
+				}
+				// pad with the latest valid headers (by timestamp) that do not connect, until heavier
+				last := b[len(b)-1]
+				for tries := 0; tries < 4 && nw.Cmp(ow) <= 0; tries++ {
+					var pad *node
+					for _, n := range w.nodes {
+						if n.valid && n.parent != last && n != last && !containsNode(b, n) &&
+							(pad == nil || n.hdr.Timestamp.After(pad.hdr.Timestamp)) {
+							pad = n
+						}
+					}
+					if pad == nil {
+						break
+					}
+					b = append(b, pad)
+					nw.Add(nw, pad.work)
+					last = pad
+				}
+				if nw.Cmp(ow) > 0 {
+					cands = append(cands, b)
+				}
+			}
+			if len(cands) == 0 {
+				continue
+			}
+			headers(sp, cands[rng.Intn(len(cands))], "padded-unconnected")
+		case x == 105 || x == 108: // a reorganisation in which one RollbackLastBlock FAILS (the case ends here)
 			sp := s.peerID(s.bm.Digest().SyncPeer)
 			if sp == 0 {
 				continue
@@ -1391,8 +1468,24 @@ func runCase(t *tr.W, rng *rand.Rand, nev int, script string) {
 			s.fs.failRollback = k
 			r := guard(func() { s.bm.Headers(s.peers[sp-1], hs) })
 			s.fs.failRollback = 0
+			oldTip := s.stored[len(s.stored)-1]
 			t.Op(fmt.Sprintf("headersfrb %d %s %d", sp, ids(b), k), s.dump(r, 0, "[]"))
-			return
+			if r != "ok" {
+				return // the code as it is panics ("Rollback failed"): the case ends here
+			}
+			// the handler survived a rollback that failed half-way: go on, starting with a header that
+			// extends the OLD tip (what a peer that knows nothing of all this sends next)
+			t.Hit("ev.headers.failrollback.survived")
+			var ok []*node
+			for _, c := range oldTip.children {
+				if c.valid {
+					ok = append(ok, c)
+				}
+			}
+			if len(ok) > 0 {
+				c := ok[rng.Intn(len(ok))]
+				headers(1+sp%npeers, append([]*node{c}, pathTo(c, randDesc(rng, c, rng.Intn(3)))...), "after-failed-rollback")
+			}
 		case x < 31: // a reorganisation and the new branch's filter headers with a SLOW notification sink,
 			// then a subscriber registers (backlog request from this goroutine)
 			sp := s.peerID(s.bm.Digest().SyncPeer)
